@@ -21,4 +21,22 @@ theorem global_reductions_accounted :
 /-- FINDING witness: the batch-mean stopping test is present in the current tree -/
 theorem conjgrad_stop_current_violates : globalReductions.contains ("ConjGrad.cg", "mean") = true := by decide
 
+/-- **complete scan**: every reduction on a forward / reconstruction path of direct/nn either names explicit axes none of
+which is the batch axis, or is one of the justified exceptions, or is the known finding -/
+theorem all_reductions_accounted : allReductions.all Row.accounted = true := by decide
+
+/-- the scan is not vacuous: it sees the normalisation layers, the coil sums and the finding -/
+theorem all_reductions_nonvacuous :
+    allReductions.contains ⟨"NormUnetModel2d.norm", "std", 0, [-1]⟩ = true ∧
+      allReductions.contains ⟨"Unet2d.forward", "sum", 0, [1]⟩ = true ∧
+      allReductions.contains ⟨"ConjGrad.cg", "mean", 1, []⟩ = true := by decide
+
+/-- every `view(-1, …)` / `reshape(-1, …)` is the per-sample broadcast idiom `(-1, 1, …, 1)`; no `flatten` merges the batch -/
+theorem reshapes_keep_batch : reshapeRows.all (fun r => r.2.2 == 1) = true := by decide
+
+/-- no RNG seeding and no unguarded random draw on any forward path; no operation singles out a coil or depends on the
+coil order (integer index at the coil position, `select(coil, const)`, sort / argmax / flip / cumsum …) -/
+theorem no_seed_no_random_no_coil_order :
+    seedCalls = [] ∧ randomCalls.all (fun r => r.2.2 == 1) = true ∧ coilOrderOps = [] := by decide
+
 end DirectVerif.Bridge.C18
